@@ -315,7 +315,7 @@ Section Calls.
     destruct (open_file s vp 0 (abs_path (ds ++ ps)) 0 0) as [s1 [r1|f1]];
       destruct (open_file s vv 0 (abs_path ps) 0 0) as [s2 [r2|f2]]; cbn [fst snd] in Hf, Hs;
       inversion Hs as [r|c at_ om]; subst; [reflexivity|].
-    unfold f_read_dir, new_handle, win, abs_path. cbn [hd_name hd_node hd_dir_infos hd_dir_index hd_mode hd_at hd_dir_names hd_view].
+    unfold f_read_dir, dir_read, new_handle, win, abs_path. cbn [hd_name hd_node hd_dir_infos hd_dir_index hd_mode hd_at hd_dir_names hd_view].
     rewrite ?(va_osp _ _ Hag), ?(va_osv _ _ Hag). repeat break_match; reflexivity.
   Qed.
 
